@@ -471,7 +471,11 @@ def check_ec(case, acc):
     for o in O:
         acc.observe(o)
     if V:
-        for cat, txt in V[:1]:
+        seen_cat = set()
+        for cat, txt in V:
+            if cat in seen_cat:
+                continue
+            seen_cat.add(cat)
             if cat == "seed-point-mismatch-accepted" and fam.startswith("curve"):
                 fam = "montgomery"
             acc.seen("ec_viol_curves", ("C05/ec/%s/%s" % (cat, fam), cn, group))
